@@ -53,6 +53,7 @@ func NewServer(parse ParseFn, options ...OptionFn) (*Server, error) {
 // Server contains options for listening to an address.
 type Server struct {
 	closing         atomic.Bool
+	admission       sync.RWMutex
 	wg              sync.WaitGroup
 	logger          *slog.Logger
 	typeExtensions  []func(*pgtype.Map)
@@ -186,8 +187,12 @@ func (srv *Server) newTypeMap() *pgtype.Map {
 // Close gracefully closes the underlaying Postgres server.
 func (srv *Server) Close() error {
 	// NOTE: only a single caller is allowed to close the closer channel, Close
-	// could be called multiple times and from multiple goroutines at once.
-	if srv.closing.CompareAndSwap(false, true) {
+	// could be called multiple times and from multiple goroutines at once. No
+	// command handler is registered once the admission lock has been released.
+	srv.admission.Lock()
+	first := srv.closing.CompareAndSwap(false, true)
+	srv.admission.Unlock()
+	if first {
 		close(srv.closer)
 	}
 
